@@ -17,11 +17,11 @@ func init() {
 			"pppoe.NewSession", "pppoe.NewSessionManager", "pppoe.SessionManager.CreateSession", "pppoe.SessionManager.GetSession",
 			"pppoe.SessionManager.GetSessionByMAC", "pppoe.SessionManager.RemoveSession", "pppoe.SessionManager.CleanupExpired", "pppoe.SessionManager.unindexLocked",
 			// ebpf/loader.go: relay circuit-id key
-			"ebpf.MakeCircuitIDKey",
+			"ebpf.MakeCircuitIDKey", "ebpf.HashCircuitID",
 		},
 		Undecided: []string{
 			"pkg/state/store.go (Lease/Session/Subscriber index maintenance) is not under contract",
-			"relay circuit-id keys: only the key function MakeCircuitIDKey is specified (exact key proved); the kernel map circuit_id_subscribers itself (Put/Delete/Lookup through cilium/ebpf) and the hash-based circuit_id_map are outside the Go heap model. Injectivity of the key is refuted by replay (truncation to 32 bytes, trailing NULs), not by an obligation",
+			"relay circuit-id keys: only the key function MakeCircuitIDKey is specified (exact key proved); the kernel map circuit_id_subscribers itself (Put/Delete/Lookup through cilium/ebpf) and the hash-based circuit_id_map are outside the Go heap model (its key function HashCircuitID is proved to be 64-bit FNV-1a over all bytes of the circuit-id, which is not injective). Injectivity of the key is refuted by replay (truncation to 32 bytes, trailing NULs), not by an obligation",
 			"pppoe: a client MAC may hold several sessions (RFC 2516), so the MAC index cannot be a bijection; what is claimed for it is `rev` (every index entry leads to a live session with that MAC) plus the whole-view postconditions of RemoveSession/CleanupExpired (an index entry disappears only together with the session it refers to). That every live session is reachable by MAC is NOT claimed (after the newest session of a MAC is removed an older one of the same MAC is not re-indexed)",
 			"qinq: the S-TAG ranges slice of the Mapper configuration is assumed not to be mutated by the caller of NewMapper after construction",
 			"obligations answered 'unknown' where the expected answer is a counterexample (solver cannot build a model under the quantified invariants) are diagnosed by replay, see REPORT",
